@@ -139,6 +139,19 @@ func (s *ByteStealer) Write(p []byte) (n int, err error) {
 }
 
 func StealBytes(reader io.WriterTo) ([]byte, error) {
+	switch reader.(type) {
+	case *bytes.Reader, *strings.Reader:
+		// these hand over their whole content in a single Write call, it is safe to keep that slice.
+	default:
+		// an arbitrary io.WriterTo may write in several chunks and reuse its chunk buffer between
+		// Write calls (a Writer must not retain p), so the data has to be copied.
+		var buffer bytes.Buffer
+		if _, err := reader.WriteTo(&buffer); nil != err {
+			return nil, err
+		}
+		return buffer.Bytes(), nil
+	}
+
 	var stealer ByteStealer
 	n, err := reader.WriteTo(&stealer)
 	if nil != err {
